@@ -423,6 +423,8 @@ pub struct Node {
 	pub forward_fees_told_msat: u64,
 	/// channels closed with OutdatedChannelManager in the current incarnation
 	pub outdated_chans: BTreeSet<usize>,
+	/// channels closed with OutdatedChannelManager in any incarnation so far
+	pub ever_outdated_chans: BTreeSet<usize>,
 	/// generation of the manager snapshot each restart loaded
 	pub loaded_gens: Vec<u64>,
 	/// channels that were closed (user force close or peer error) while an asynchronous monitor
@@ -529,6 +531,9 @@ pub struct Pay {
 	pub underpaid_hop: Option<usize>,
 	/// C04: the sender-side flaw of this payment (0 = none); a flawed payment must be refused
 	pub flaw: u8,
+	/// the sender restarted from a ChannelManager snapshot taken before it handled this payment's
+	/// PaymentSent: every later incarnation descends from a manager that does not know about it
+	pub sent_handling_lost: bool,
 	/// the sender restarted from a manager snapshot older than the payment and re-learned it
 	/// from its ChannelMonitors
 	pub rehydrated: bool,
@@ -707,6 +712,7 @@ impl World {
 				unsweepable_sat: 0,
 				forward_fees_told_msat: 0,
 				outdated_chans: BTreeSet::new(),
+				ever_outdated_chans: BTreeSet::new(),
 				loaded_gens: Vec::new(),
 				closed_inflight: BTreeSet::new(),
 				check_roundtrip: cfg.profile == "roundtrip",
@@ -1719,6 +1725,7 @@ impl World {
 		if short == "OutdatedChannelManager" {
 			if let Some(c) = ci {
 				self.nodes[n].outdated_chans.insert(c);
+				self.nodes[n].ever_outdated_chans.insert(c);
 			}
 			self.out.bump("probe:channel_closed_outdated_manager");
 		}
@@ -2016,6 +2023,7 @@ impl World {
 			send_height: self.nodes[from].synced_height,
 			underpaid_hop,
 			flaw,
+			sent_handling_lost: false,
 			rehydrated: false,
 		});
 		self.note(&format!("send pay {} {}->{} total {} accepted {}", idx, from, to, total, pending));
